@@ -354,3 +354,9 @@ H_AE_CONFIG = {"fn": "vh_ae_config", "what": "appendEntries carrying / truncatin
 CHECKS["C07"]["harnesses"].append(H_AE_CONFIG)
 H_AE_CONFIG2 = {"fn": "vh_ae_config_append", "what": "a configuration entry appended after the follower's uncommitted latest configuration", "bounds": "1 entry", "covers": ["aeconfig.previous-latest-committed", "aeconfig.new-config-committed-at-once"]}
 CHECKS["C07"]["harnesses"].append(H_AE_CONFIG2)
+
+H_APPLY_API = {"fn": "vh_apply_api", "what": "Apply/Barrier with a timeout while nobody receives from applyCh (buffered full / unbuffered): ErrEnqueueTimeout and nothing enqueued", "bounds": "exhaustive", "covers": ["applyapi.end"]}
+H_TIMEOUTNOW = {"fn": "vh_timeout_now", "what": "the TimeoutNow handler on an arbitrary server", "bounds": "N=1", "covers": ["timeoutnow.end"]}
+CHECKS["C08"]["harnesses"].append(H_APPLY_API)
+for p in ["C14", "C18", "C06"]:
+    CHECKS[p]["harnesses"].append(H_TIMEOUTNOW)
